@@ -121,6 +121,11 @@ inductive Tok where
   | recover
   | sysLock | sysUnlockDefer | sysUnlockNow
   | vigBegin | vigCeaseDefer | vigCeaseNow
+  /-- a call into one of the swamp methods that auto-destroy an emptied swamp
+      (`DeleteTreasure`, `CloneAndDelete…`): when it fires, the method itself runs
+      `s.CeaseVigil(); s.Destroy()` on the caller's vigil — the caller's deferred CeaseVigil then
+      runs once more on the destroyed instance -/
+  | autoDestroy
   deriving DecidableEq, Repr
 
 structure Counters where
@@ -138,8 +143,12 @@ def runDeferred (c : Counters) : Deferred → Counters
   | .ceaseVig => { c with vig := c.vig - 1 }
   | .recover => c
 
+/-- does the auto-destroy branch fire in this execution (the swamp became empty) -/
+abbrev Fires := Bool
+
 /-- execute one statement: new counters and the defer stack (most recent first) -/
-def execTok (c : Counters) (ds : List Deferred) : Tok → Counters × List Deferred
+def execTok (fires : Fires) (c : Counters) (ds : List Deferred) : Tok → Counters × List Deferred
+  | .autoDestroy => (if fires then { c with vig := c.vig - 1 } else c, ds)
   | .sysPair => ({ c with sys := c.sys + 1 }, .unlockSys :: ds)
   | .vigPair => ({ c with vig := c.vig + 1 }, .ceaseVig :: ds)
   | .recover => (c, .recover :: ds)
@@ -152,15 +161,30 @@ def execTok (c : Counters) (ds : List Deferred) : Tok → Counters × List Defer
 
 /-- run the statements, then unwind the defer stack (a `return` and a panic unwind alike;
     every deferred call runs, LIFO) -/
-def execShape : Counters → List Deferred → List Tok → Counters
+def execShape (fires : Fires) : Counters → List Deferred → List Tok → Counters
   | c, ds, [] => ds.foldl runDeferred c
-  | c, ds, t :: ts => let r := execTok c ds t; execShape r.1 r.2 ts
+  | c, ds, t :: ts => let r := execTok fires c ds t; execShape fires r.1 r.2 ts
 
 /-- the handler leaves at statement boundary `n` (early return, or a panic in the code that
     follows the `n`-th counted statement) -/
-def exitAt (shape : List Tok) (n : Nat) (c : Counters) : Counters := execShape c [] (shape.take n)
+def exitAt (shape : List Tok) (n : Nat) (c : Counters) (fires : Fires := false) : Counters :=
+  execShape fires c [] (shape.take n)
 
-/-- only paired statements (and recovers) -/
-def Paired (shape : List Tok) : Bool := shape.all fun t => t == .sysPair || t == .vigPair || t == .recover
+/-- only paired statements, recovers and calls that may auto-destroy -/
+def Paired (shape : List Tok) : Bool :=
+  shape.all fun t => t == .sysPair || t == .vigPair || t == .recover || t == .autoDestroy
+
+/-- `Close()` of an idle swamp, followed by a `WaitForGracefulClose` caller: the closer (thread 0;
+    `Close` has no drain, the vigil check stands for "nothing in flight") reaches its cancel — or
+    returns early without it — and the waiter then tries to return -/
+def closeTrace (alwaysCancels : Bool) : List Act :=
+  [.wLock 0, .wCheck 0] ++ (if alwaysCancels then [.wCancel 0] else []) ++ [.gReturn]
+
+/-- the auto-destroy code path of one goroutine that holds a vigil on the swamp: (cease its own
+    vigil,) then the drain; with no other operation in flight -/
+def autoDestroyTrace (cfg : Cfg) (ceaseFirst : Bool) : List Act :=
+  [.begin] ++
+  (if ceaseFirst then (if cfg.decUnderLock then [.cLock, .cDec, .cUnlock] else [.cDec]) ++ [.bcast] else []) ++
+  [.wLock 0, .wCheck 0] ++ (if ceaseFirst then [] else [.wAdd 0, .wPark 0])
 
 end Hv.Vigil
